@@ -190,7 +190,11 @@ loop:
 				}
 				env.push(w)
 				if !env.paths.empty() && env.expdepth == 0 {
-					switch v[2].(string) {
+					name := v[2].(string)
+					if f, ok := internalFuncs[name]; !ok || f.argcount&(1<<argcnt) == 0 {
+						name = "" // a custom function, not the native of this name
+					}
+					switch name {
 					case "_index":
 						if x = args[0]; !env.pathIntact(x) {
 							err = &invalidPathError{x}
